@@ -177,6 +177,18 @@ def check_history(res, scn, *, resumed=False, props=("c18", "c08")):
                         )
                     )
                     break
+    if "c18" in props and len(pops) >= 2:
+        # every stored entry is a population of the SMC loop (initial, then after each iteration): they all have the loop's
+        # particle number -- the enlarged final set is returned, it is not "the population after an iteration"
+        n0 = len(pop_arrays(pops[0])[0])
+        for i, p_ in enumerate(pops):
+            ni = len(pop_arrays(p_)[0])
+            if ni != n0:
+                out.append(violation(
+                    "c18.population_size",
+                    f"stored population {i} has {ni} particles, the loop's populations have {n0}" + (" (resumed run)" if resumed else ""),
+                    where, index=i, got=ni, want=n0))
+                break
     # value-level recomputation from neighbouring populations
     if len(pops) == n + 1 and all(len(getattr(h, k)) == n for k in SERIES):
         for i in range(1, n + 1):
